@@ -2,6 +2,7 @@ package h
 
 import (
 	"fmt"
+	"github.com/netflix/rend/verifshim/vsync"
 	"testing"
 	"time"
 
@@ -91,8 +92,24 @@ func NoBubble(f func()) {
 
 // RunSeq executes the scenario against a fresh world and compares every reply with the model.
 // It must be called inside a bubble when ops contain "advance" or non-zero TTLs matter.
+// doublePut drains the pool shim's log: a pooled object returned to a pool it was already in will
+// be handed to two users (of possibly different connections) later on.
+func doublePut(harness string) *Finding {
+	dp := vsync.TakeDoublePuts()
+	if len(dp) == 0 {
+		return nil
+	}
+	return &Finding{Sig: harness + " pooled-object-put-twice", What: "a pooled object was returned to its pool while already in it; two later users will share it: " + dp[0], Clause: "pooled-object-put-twice"}
+}
+
 func RunSeq(sc SeqScenario, o SeqOpts) *SeqResult {
 	res := &SeqResult{}
+	vsync.TakeDoublePuts()
+	defer func() {
+		if f := doublePut(sc.Harness); f != nil {
+			res.Findings = append(res.Findings, *f)
+		}
+	}()
 	w := NewWorld(sc.Cfg)
 	defer w.Release()
 	if o.Setup != nil {
